@@ -18,13 +18,20 @@ def seq_program(rng, n_units):
 
     for _ in range(n_units):
         body.append(log())
-        k = rng.choice(["step", "steplog", "wait", "fstep", "child", "cb", "wfcb", "par", "map", "wfc", "invoke"])
+        k = rng.choice(["step", "steplog", "wait", "fstep", "child", "cb", "wfcb", "par", "map", "wfc", "invoke", "rsteplog", "rsteplog", "parwait", "parwait"])
         if k == "step":
             body.append({"k": "step", "val": rng.randrange(9)})
         elif k == "steplog":
             body.append({"k": "step", "val": rng.randrange(9), "log": True})
         elif k == "wait":
             body.append({"k": "wait", "s": 1})
+        elif k == "rsteplog":  # fails once, retried after a timer: the second attempt (and its log call) is new work of a later invocation
+            body.append({"k": "step", "script": [{"do": "fail", "cls": "ValueError", "msg": "once"}, {"do": "ok", "val": 5}], "log": True,
+                         "retry": {"decisions": [("retry", 1), ("stop",)]}})
+        elif k == "parwait":  # block that suspends inside: its branches are replayed concurrently when the execution resumes
+            nb = rng.randrange(2, 7)
+            body.append({"k": "par", "branches": [{"body": [{"k": "step", "val": b}, {"k": "step", "val": b + 10}, {"k": "wait", "s": 1}, {"k": "step", "val": b + 20}]}
+                                                  for b in range(nb)], "cfg": {"preset": "all_completed"}})
         elif k == "fstep":
             body.append({"k": "try", "catch": "*", "body": {"k": "step", "script": [{"do": "fail", "cls": "ValueError", "msg": "x"}],
                                                                 "retry": {"kind": "preset", "name": "none"}}})
@@ -57,13 +64,30 @@ def explicit(tier, seed):
         pages = rng.choice([{}, {}, {"first_page": 1, "page_size": 1}, {"first_page": 1, "page_size": 100}, {"first_page": 2, "page_size": 2},
                             {"first_page": 3, "page_size": 1}, {"first_page": 0, "page_size": 3}, {"first_page": rng.randrange(1, 8), "page_size": rng.randrange(1, 5)}])
         pat = {"p": "crash_enum", "max_points": 14} if i % 4 == 0 else {"p": "plain"}
-        yield {"label": "seq-logs", "prog": prog, "prog_seed": 11000 + i + seed * 1000, "pages": pages, "pattern": pat}
+        c = {"label": "seq-logs", "prog": prog, "prog_seed": 11000 + i + seed * 1000, "pages": pages, "pattern": pat}
+        if i % 3 == 1:
+            c["opts"] = {"perturb": {"p": 0.05, "seed": i, "files": ["state.py", "context.py", "logger.py"]}}
+        yield c
+
+
+def explicit_all(tier, seed):
+    yield from explicit(tier, seed)
+    # many branches replaying their completed operations at the same time, under dense yield injection in the replay-tracking code:
+    # whatever the interleaving, the log call after the block must come out once the block has been passed
+    rng = random.Random(seed * 13 + 5)
+    for j in range(14 if tier == "quick" else 160):
+        nb = rng.choice([6, 8, 12, 16])
+        par = {"k": "par", "branches": [{"body": [{"k": "step", "val": b}, {"k": "step", "val": b + 100}, {"k": "wait", "s": 1}, {"k": "step", "val": b + 200}]} for b in range(nb)],
+               "cfg": {"preset": "all_completed"}}
+        prog = {"body": [{"k": "log", "tag": "L1"}, {"k": "step", "val": 0}, par, {"k": "log", "tag": "L2"}, {"k": "step", "val": 1, "log": True}, {"k": "log", "tag": "L3"}], "logger": True}
+        yield {"label": "concurrent-replay", "prog": prog, "prog_seed": 11900 + j + seed * 1000, "pattern": {"p": "plain"},
+               "opts": {"perturb": {"p": rng.choice([0.1, 0.25, 0.5]), "sleep_p": 0.3, "max_sleep": 0.001, "seed": j, "files": ["state.py"]}}}
 
 
 SPEC = Spec(
     PROP,
     level="fault_enumeration",
-    explicit=explicit,
+    explicit=explicit_all,
     quick={"plain": 0, "enum": 0, "rand": 0, "async": 0},
     thorough={"plain": 0, "enum": 0, "rand": 0, "async": 0},
     rule="sequential programs with a log call before/after every unit (steps, steps that log inside, waits, caught failing steps, child "
